@@ -30,7 +30,7 @@ CLAIM = dict(
     design_ref="DESIGN.md §5 C01, §10",
     note="level 'proof, partial': validity itself is decided by the reference validator (oracle). Trusted: Coq kernel, extraction, "
          "OCaml driver, Rust harness (generator, section reader, supervisor), wasmparser validator. TypeEncoder is a parameter of "
-         "the encoder model; its faults are found by search only (16 known findings listed with narrow signatures, 5 of them the C05 "
+         "the encoder model; its faults are found by search only (17 known findings listed with narrow signatures, 5 of them the C05 "
          "encoder findings that surface as late validation failures / encoder panics).",
     technique="Coq proofs (history invariants, permutation argument, corollaries of the C02 simulation) + validator-as-oracle search "
               "+ extracted predicates evaluated on real outputs")
@@ -70,7 +70,10 @@ KNOWN_MATCH = {
         and has(t, r"^U:func\+nn") and (has(t, r"^SHARED:type\+val\+nn$") or has(t, r"^M:type\+val\+nn$") or has(t, r"^G:(inst|import|other):type\+val\+nn$")),
     "C01-define-type-with-undefined-dependency":
         lambda k, m, t, mo: k in ("late-validation-failure", "invalid-binary") and m.startswith("type not valid to be used as export")
-        and has(t, r"^D:type\+(val|func)\+nn"),
+        and has(t, r"^D:type\+(val|func)\+nn") and has(t, r"^D:undef-dep$"),
+    "C01-define-type-nested-dependency-missed":
+        lambda k, m, t, mo: k in ("late-validation-failure", "invalid-binary") and m.startswith("type not valid to be used as export")
+        and has(t, r"^D:type\+(val|func)\+nn") and has(t, r"^D:deep-dep$"),
     "C01-define-unidentified-world-or-interface":
         lambda k, m, t, mo: k == "panic" and (("world must have an id" in m and has(t, r"^D:type\+world\+noid")) or
                                               ("interface must have an id" in m and has(t, r"^D:type\+iface\+noid"))),
@@ -141,9 +144,17 @@ PROPOSED_KNOWN = [
               "implicit import `mk: func() -> point` is encoded over an anonymous copy of the record"),
     dict(property=PID, id="C01-define-type-with-undefined-dependency", status="known", witness="H def 20 11",
          signature="`type not valid to be used as export`; a definition node whose type mentions a record/variant/enum/flags type "
-                   "that is not defined (exported) itself (tag D:type+val+nn / D:type+func+nn)",
+                   "that is not defined (exported) itself (tags D:type+val+nn / D:type+func+nn and D:undef-dep: some definition has a named "
+                   "component without a definition of its own, by the harness's own traversal of the type)",
          text="define_type(`list<rec>`) without defining `rec` first is accepted; the export of the definition is invalid. With the "
               "dependency defined first (corpus: `def 20 6;def 6 7;...`) the output is valid"),
+    dict(property=PID, id="C01-define-type-nested-dependency-missed", status="known", witness="H def 26 13;def 34 6",
+         signature="`type not valid to be used as export` although every named component of every definition is defined; some definition "
+                   "reaches a DEFINED record/variant/enum/flags type only through an intermediate anonymous type (list, option, tuple, "
+                   "result, alias) or, for a function type, through any anonymous type (tag D:deep-dep, harness's own traversal)",
+         text="define_type scans only the DIRECT components of the new type for dependency edges (visit_defined_types is one level deep): "
+              "`t0 = func() -> list<rec>` defined before `rec` gets no edge from `rec`, the encoder emits t0 first with an anonymous copy "
+              "of the record and the output is invalid; in the other order (`H def 34 6;def 26 13`) it is valid"),
     dict(property=PID, id="C01-define-unidentified-world-or-interface", status="known", witness="H def 6 18",
          signature="panic `world must have an id` / `interface must have an id` (encoding.rs); definition of a world / interface "
                    "type whose id is None (tag D:type+world+noid / D:type+iface+noid)",
@@ -261,7 +272,7 @@ def classify(kind, mode, raw, tags, known_ok):
     return [i for i in known_ok if i in KNOWN_MATCH and KNOWN_MATCH[i](kind, m, tags, mode)]
 
 
-def correspondence(im, mo):
+def correspondence(im, mo, tags=()):
     out = []
     ires = [re.sub(r"^PANIC\(.*", "PANIC", x) for x in im.get("res", "").split(";")]
     if ires != mo.get("res", "").split(";"):
@@ -283,7 +294,8 @@ def correspondence(im, mo):
             if mc != "ok":
                 out.append(f"{m}: real encode succeeded, model encoder says {model}")
             else:
-                if mo.get(m + ".logeq") != "1":
+                # top-level resource imports are outside the encoder model (TypeEncoder::import_resource keys them by definition name)
+                if mo.get(m + ".logeq") != "1" and not any(re.match(r"^[MU]:type\+res$", t) for t in tags):
                     out.append(f"{m}: model log differs from the real item log")
                 if mo.get(m + ".speccomplete") != "1":
                     out.append(f"{m}: wiring specification has an incomplete instantiation")
@@ -386,7 +398,7 @@ def run(res, tier, seed, replay):
             elif "DRIVER-EXN" in row["raw_model"]:
                 disagreements.append((row, ["driver exception: " + row["raw_model"][:200]]))
             else:
-                d = correspondence(im, mo)
+                d = correspondence(im, mo, tags)
                 if d:
                     disagreements.append((row, d))
         any_ok = False
@@ -426,8 +438,10 @@ def run(res, tier, seed, replay):
         encode_outcomes=outcome_hist, known_finding_observations={k: len(set(r["case"] for r in v)) for k, v in known_hits.items()},
         rule="compositions = regression corpus (corpus/C01/cases.txt: witnesses of the known findings + must-be-valid cases) + the "
              "repository's WAC fixtures (tests/encoding, tests/resolution, examples) + random accepted graph-API histories (register / "
-             "instantiate / define_type / import / alias / set+unset argument / export / unexport / name / remove_node / unregister; "
-             "rejected operations are partly kept) + generated WAC documents, all over a library of 33 components (12 of the C02 universe, "
+             "instantiate / define_type (composites and their components in every order, incl. slots freed by removals) / import / alias / "
+             "set+unset argument / export / unexport / name / remove_node / unregister; "
+             "rejected operations are partly kept) + generated WAC documents (compositions over the library; declared resources with "
+             "functions mentioning borrow<r> at every nesting position: rejected by the resolver or valid), all over a library of 33 components (12 of the C02 universe, "
              "19 WIT-derived with records/variants/lists/options/results/enums/flags/resources/cross-interface and world-level use/"
              "versioned interfaces on equal and different tracks/sibling interfaces reusing type names with different shapes, 2 hand-shaped "
              "WAT incl. one with three same-typed imports; histories set several arguments from one node and unset them in another order). Every composition is encoded 4 times "
